@@ -157,9 +157,23 @@ def case_strategy(draw, tier, with_variant=False):
         for _ in range(int(rng.integers(1, 3))):
             edges = edges + [list(edges[int(rng.integers(0, len(edges)))])]
     # numbering
-    numbering = draw(st.sampled_from(["plain", "offset", "gaps", "gaps"]))
+    numbering = draw(st.sampled_from(["plain", "offset", "gaps", "gaps", "ends-at-n", "permuted", "zero-based"]))
     if numbering == "plain":
         numbers = list(range(1, n + 1))
+    elif numbering == "ends-at-n":
+        # starts at 0 (or below) and skips numbers so that the last number is the atom count - without being 1..n
+        skip = int(rng.integers(0, n))
+        numbers = [k if k < skip else k + 1 for k in range(n)]
+        if n > 2 and rng.random() < 0.3:
+            numbers = [-1] + [k if k < skip + 1 else k + 1 for k in range(n - 1)]
+            numbers[-1] = n
+            numbers = sorted(set(numbers))
+            while len(numbers) < n:
+                numbers.insert(0, numbers[0] - 1)
+    elif numbering == "permuted":
+        numbers = [int(v) + 1 for v in rng.permutation(n)]          # 1..n, not in file order
+    elif numbering == "zero-based":
+        numbers = list(range(0, n))
     elif numbering == "offset":
         start = int(rng.integers(2, 500))
         numbers = list(range(start, start + n))
